@@ -75,6 +75,16 @@ func main() {
 		fmt.Printf("replay: %s \n", v.String())
 		fmt.Printf("VIOLATION property=%s replay=%s\n", v.Prop, os.Args[2])
 		os.Exit(1)
+	case "one":
+		// opsim one <prop> <tier> <run-seed>
+		if len(os.Args) != 5 {
+			usage()
+		}
+		seed, err := strconv.ParseUint(os.Args[4], 10, 64)
+		if err != nil {
+			usage()
+		}
+		os.Exit(core.OneMain(os.Args[2], os.Args[3], seed))
 	case "digest":
 		// determinism witness: prints one line per run
 		if len(os.Args) != 4 {
